@@ -335,6 +335,24 @@ def rule_r2(ck, prog, f, rule='C05.R2'):
     return g, rd, sink, vid
 
 
+def _read_behind_holds(g, sf, get_node, rp):
+    """the point at which get<T>(variant) is evaluated is only reachable over the edge on which holds_alternative<T> was true
+    (either polarity of the source condition; `holds && get(...)` evaluates the get behind the short-circuit edge)"""
+    pt = g.point_of.get((id(rp.ctx), get_node['i']))
+    if pt is None:
+        return False
+
+    def holds_true(a, b, lab):
+        if not lab or not isinstance(lab[0], int):
+            return False
+        core, pol = norm_cond(lab[1], lab[0])
+        cn = lab[1].nodes[core]
+        if cn['k'] == 'call' and strip_targs(cn.get('c', '')).endswith('holds_alternative'):
+            return (lab[2] if pol else not lab[2]) is True
+        return False
+    return g.must_pass_edge(pt, holds_true)
+
+
 def rule_r2_predicates(ck, prog, rule='C05.R2'):
     """The atoms of the decision table are calls of IsRootSpan / GetSpan: they have to report what the Context stores."""
     for (fname, key, alt, site) in (('trace::IsRootSpan', 'kIsRootSpanKey', 'bool', 'root-marker-is-stored-bool'),
@@ -373,9 +391,7 @@ def rule_r2_predicates(ck, prog, rule='C05.R2'):
                                 src_ok = True
                 if not src_ok:
                     bad = (rp, 'the value returned is not read from GetValue(%s)' % key)
-                elif not g.must_pass_edge(rp, lambda a, b, lab: bool(lab) and isinstance(lab[0], int) and lab[2] is True and
-                                          strip_targs(lab[1].nodes[norm_cond(lab[1], lab[0])[0]].get('c', '')).endswith('holds_alternative') and
-                                          norm_cond(lab[1], lab[0])[1]):
+                elif not _read_behind_holds(g, sf, m, rp):
                     bad = (rp, 'the stored alternative is read without holds_alternative having been true')
                 else:
                     stored += 1
